@@ -16,17 +16,18 @@ from vlib.node import Node
 
 META = {
     'level_text': 'Theorems for all histories of client reads/writes and driver-side calls/assignments: struct_members_agree (struct[m] = '
-                  'member m after every operation, both layouts, any oracle outcome of the driver bodies incl. failures in the middle of '
-                  'a struct access), floatenum_consistent_partial (value = valuedict[index] after every operation; a write hands the driver an '
-                  'index whose value no other label is closer to) + closest_first_minimum (tie rule of min()), limits_enforced (an accepted write is inside '
-                  'every limit parameter current at that moment; an inverted limits pair is refused and changes nothing), '
-                  'single_controller + takeover_switches_off + controlled_by_names_active.  Models tied to frappy/extparams.py, '
+                  'member m after every operation, both layouts, any oracle outcome of the driver bodies incl. SECoP errors and arbitrary '
+                  'exceptions at any member position of a struct access), floatenum_consistent (value = valuedict[index] after every '
+                  'operation incl. driver-side assignment to the float itself; a write hands the driver an index whose value no other '
+                  'label is closer to) + closest_first_minimum (tie rule of min()), limits_enforced (an accepted write is inside every '
+                  'limit parameter current at that moment; an inverted limits pair is refused and changes nothing), single_controller '
+                  '(per output, any wiring of inputs to several outputs) + takeover_switches_off + outputs_independent (an operation on '
+                  'one output changes nothing of another) + controlled_by_names_active.  Models tied to frappy/extparams.py, '
                   'params.Limit, modulebase.checkLimits and mixins.py by a correspondence run on real modules behind a real dispatcher; '
                   'the Lean monitors judge the values recorded after every operation.',
     'level_note': 'Trusted: Lean kernel + axioms propext/Classical.choice/Quot.sound; values are exact rationals (integers over a common '
                   'denominator) - binary64 subtraction/comparison is assumed to agree on the generated values; driver method bodies are '
-                  'scripted oracles; floatenum_consistent is partial: a driver-side assignment to the float parameter itself is excluded '
-                  '(recorded finding, proved counterexample).',
+                  'scripted oracles (value / None / SECoP error / ValueError, KeyError, ZeroDivisionError).',
     'trusted': [
         'float distance comparison: abs(vdict[i] - x) compared in binary64 agrees with the exact rational comparison on the generated '
         'values (dyadic values are exact; for label-derived values the generator keeps x away from near-ties)',
@@ -852,14 +853,21 @@ def build_control_classes(case):
 
 
 def impl_control(case):
+    """several outputs in one node, input k attached to output case['outs'][k]"""
     Out, In = build_control_classes(case)
-    n = case['n']
-    cfg = {'out': {'cls': Out, 'description': 'x'}}
+    outs_of = case['outs']
+    n, nout = len(outs_of), case['nout']
+    cfg = {}
+    for o in range(nout):
+        cfg[f'out{o}'] = {'cls': Out, 'description': 'x'}
     for k in range(n):
-        cfg[f'in{k}'] = {'cls': In, 'description': 'x', 'output_module': 'out'}
+        cfg[f'in{k}'] = {'cls': In, 'description': 'x', 'output_module': f'out{outs_of[k]}'}
     node, conn = new_node(cfg)
-    out = node.modules['out']
+    outs = [node.modules[f'out{o}'] for o in range(nout)]
     ins = [node.modules[f'in{k}'] for k in range(n)]
+
+    def cb_of(o, name):
+        return None if name == 'self' else int(name[2:])
 
     def snapshot(ok):
         evs = []
@@ -867,14 +875,16 @@ def impl_control(case):
             if msg[0] != 'update':
                 continue
             mod, par = msg[1].split(':')
-            if mod == 'out' and par == 'controlled_by':
-                evs.append(['cb', None if msg[2][0] == 0 else msg[2][0] - 1])
+            if mod.startswith('out') and par == 'controlled_by':
+                o = int(mod[3:])
+                # the update carries the enum value: translate through the output's own enum
+                member = outs[o].parameters['controlled_by'].datatype(msg[2][0])
+                evs.append(['cb', o, cb_of(o, member.name)])
             elif mod.startswith('in') and par == 'control_active':
                 evs.append(['act', int(mod[2:]), bool(msg[2][0])])
         conn.msgs.clear()
-        name = out.controlled_by.name
-        return {'cb': None if name == 'self' else int(name[2:]), 'act': [bool(m.control_active) for m in ins],
-                'evs': evs, 'ok': ok}
+        return {'cb': [cb_of(o, outs[o].controlled_by.name) for o in range(nout)],
+                'act': [bool(m.control_active) for m in ins], 'evs': evs, 'ok': ok}
 
     trace = [snapshot(True)]
     for op in case['ops']:
@@ -883,26 +893,26 @@ def impl_control(case):
         try:
             if kind == 'writeIn':
                 if via == 'req':
-                    ok, exc = reply_outcome(node.request(conn, 'change', f'in{op[1]}:target', 1.5))
+                    ok = ok_reply(node.request(conn, 'change', f'in{op[1]}:target', 1.5))
                 else:
                     ins[op[1]].write_target(1.5)
             elif kind == 'writeOut':
                 if via == 'req':
-                    ok, exc = reply_outcome(node.request(conn, 'change', 'out:target', 2.5))
+                    ok = ok_reply(node.request(conn, 'change', f'out{op[1]}:target', 2.5))
                 else:
-                    out.write_target(2.5)
+                    outs[op[1]].write_target(2.5)
             elif kind == 'activate':
                 ins[op[1]].activate_control()
             elif kind == 'deactivate':
                 ins[op[1]].deactivate_control('harness')
             elif kind == 'selfControlled':
-                out.self_controlled()
+                outs[op[1]].self_controlled()
             elif kind == 'updateTarget':
-                out.update_target(f'in{op[1]}', 3.5)
+                outs[op[1]].update_target(f'in{op[2]}', 3.5)
             else:
                 raise ValueError(kind)
-        except Exception as e:
-            ok, exc = False, EXC_NAMES.get(type(e).__name__)
+        except Exception:
+            ok = False
         trace.append(snapshot(ok))
     return trace
 
@@ -918,25 +928,35 @@ def wire_control_ops(case):
 
 
 def gen_control(rng, big):
-    n = rng.choice([1, 2, 2, 3, 3])
+    nout = rng.choice([1, 1, 2, 2, 3])
+    # 0..3 inputs per output, at least one input in the node; the numbering of the inputs is shuffled over the outputs
+    outs = []
+    for o in range(nout):
+        outs += [o] * rng.choice([0, 1, 1, 2, 2, 3])
+    if not outs:
+        outs = [rng.randrange(nout)]
+    rng.shuffle(outs)
+    n = len(outs)
     ops = []
     for _ in range(rng.randint(1, 30 if big else 12)):
         via = rng.choice(['req', 'call'])
         r = rng.random()
         k = rng.randrange(n)
+        o = rng.randrange(nout)
         if r < 0.4:
             ops.append(['writeIn', k, via])
         elif r < 0.55:
-            ops.append(['writeOut', via])
+            ops.append(['writeOut', o, via])
         elif r < 0.7:
             ops.append(['activate', k, 'drv'])
-        elif r < 0.8:
+        elif r < 0.78:
             ops.append(['deactivate', k, 'drv'])
         elif r < 0.88:
-            ops.append(['selfControlled', 'drv'])
+            ops.append(['selfControlled', o, 'drv'])
         else:
-            ops.append(['updateTarget', k, 'drv'])
-    return {'kind': 'control', 'n': n, 'guarded': rng.random() < 0.6, 'drivable': rng.random() < 0.4, 'ops': ops}
+            ops.append(['updateTarget', o, k, 'drv'])
+    return {'kind': 'control', 'nout': nout, 'outs': outs, 'guarded': rng.random() < 0.6, 'drivable': rng.random() < 0.4,
+            'ops': ops}
 
 
 # ----------------------------------------------------------------------------------------
@@ -958,8 +978,8 @@ def prepare(case):
     if kind == 'control':
         trace = impl_control(case)
         ops = wire_control_ops(case)
-        return trace, {'p': 'C18', 'k': 'control', 'n': case['n'], 'ops': ops}, \
-            {'p': 'C18', 'k': 'judge_control', 'n': case['n'], 'ops': ops,
+        return trace, {'p': 'C18', 'k': 'control', 'nout': case['nout'], 'outs': case['outs'], 'ops': ops}, \
+            {'p': 'C18', 'k': 'judge_control', 'nout': case['nout'], 'outs': case['outs'], 'ops': ops,
              'trace': [{'cb': t['cb'], 'act': t['act']} for t in trace]}, trace
     raise ValueError(kind)
 
